@@ -60,6 +60,7 @@ func Harness(prop string) func(ctx *common.Ctx) error {
 			cfg.K = 2 + ctx.Rng.Pick(2)
 			cfg.Disciplined = i%2 == 0
 			cfg.Bulk = i%4 >= 2
+			cfg.Observer = i%5 == 3
 			ctx.Current(fmt.Sprintf("history #%d seed=%d", i, ctx.Seed), nil)
 			run, err := RunHistory(ctx.Rng, cfg)
 			if run != nil && len(run.Hist) > 0 {
@@ -78,6 +79,7 @@ func Harness(prop string) func(ctx *common.Ctx) error {
 			res.Count(fmt.Sprintf("sessions:%d", run.K))
 			res.Count(fmt.Sprintf("disciplined:%v", cfg.Disciplined))
 			res.Count(fmt.Sprintf("idle-bulk:%v", cfg.Bulk))
+			res.Count(fmt.Sprintf("silent-observer:%v", cfg.Observer))
 			if i < 2 {
 				res.Sample(map[string]interface{}{"history": HistString(run.Hist), "steps": len(run.Hist)})
 			}
